@@ -71,12 +71,16 @@ class CallMixin:
             try:
                 r = inspect.getattr_static(v, name)
             except AttributeError:
+                if isinstance(v, type) and hasattr(v, name):
+                    return getattr(v, name)
                 raise TargetExc(self.make_exception(AttributeError, [name], {}))
-            if isinstance(r, (staticmethod, classmethod)):
-                if isinstance(r, classmethod):
-                    return BoundMeth(v, r.__func__)
+            if isinstance(r, classmethod) and isinstance(r.__func__, types.FunctionType):
+                return BoundMeth(v, r.__func__)
+            if isinstance(r, staticmethod) and isinstance(r.__func__, types.FunctionType):
                 return r.__func__
-            return getattr(v, name) if isinstance(v, types.ModuleType) else r
+            if isinstance(v, types.ModuleType) or not isinstance(r, (types.FunctionType, property)):
+                return getattr(v, name)
+            return r
         if isinstance(v, types.SimpleNamespace):
             return getattr(v, name)
         if isinstance(v, Closure) and name == '__name__':
@@ -97,6 +101,9 @@ class CallMixin:
                 val = self.fresh(base, ftypes[name])
                 fields[name] = val
                 return val
+            am = self.env.attr_models.get((o.schema, name))
+            if am is not None:
+                return am.fn(self, o)
             m = self.env.model_for(o.schema, name)
             if m is not None:
                 return BoundMeth(o, m)
@@ -146,8 +153,7 @@ class CallMixin:
                 # symbolic key into a concrete dict: ite chain; KeyError when no key matches
                 keys = list(base.keys())
                 hit = smt.Or(*[self.eq(idx, k) for k in keys])
-                if not self.choose(hit):
-                    raise TargetExc(self.make_exception(KeyError, [idx], {}))
+                self.require_safe(hit, lambda: self.make_exception(KeyError, [idx], {}), 'KeyError')
                 res = None
                 for k in reversed(keys):
                     res = base[k] if res is None else self.ite_val(self.eq(idx, k), base[k], res)
@@ -171,8 +177,8 @@ class CallMixin:
             return self.value_of_sort(smt.SeqNth(base.t, pos), base.ety)
         if isinstance(base, SMapV):
             kt = self.term_of(idx)
-            if not self.choose(smt.SetMember(kt, base.dom)):
-                raise TargetExc(self.make_exception(KeyError, [idx], {}))
+            self.require_safe(smt.SetMember(kt, base.dom),
+                              lambda: self.make_exception(KeyError, [idx], {}), 'KeyError')
             return self.value_of_sort(smt.Select(base.arr, kt), base.vty)
         if isinstance(base, Obj):
             m = self.get_attr(base, '__getitem__')
